@@ -55,7 +55,7 @@ Lemma sim_dstep e s gf : R2 s gf ->
   fst (dstep Fixed e s) = fst (dsstep e gf) /\ R2 (snd (dstep Fixed e s)) (snd (dsstep e gf)).
 Proof.
   destruct gf as [g f]. intros [HR Hf]. cbn [fst snd] in HR, Hf.
-  destruct e as [e| | | | |n pents|he]; cbn [dstep dsstep].
+  destruct e as [e| | | | |n pents|he|ce]; cbn [dstep dsstep].
   - (* a request *)
     destruct (sim_step e s g HR) as [H1 H2]. pose proof (timers_step e s g HR) as Ht.
     destruct (sstep e g) as [r g1]. cbn [fst snd] in *. split; [assumption|]. split; [assumption|].
@@ -116,6 +116,89 @@ Proof.
     + rewrite Ht in Hx. discriminate.
     + rewrite Ht in Hx. injection Hx as _ <-. rewrite Hre, orb_true_r. reflexivity.
     + rewrite Hre, orb_false_r. apply (Hf x). rewrite <- Ht. assumption.
+  - (* an end request / end call with an already cancelled context *)
+    destruct ce as [start id end_ ents|n|n ents|n|tents|].
+    + (* HTTP *)
+      cbn [cancelled_end scancelled_end].
+      set (e' := EHttp start id false ents).
+      destruct (sim_step e' s g HR) as [H1 H2]. pose proof (timers_step e' s g HR) as Ht.
+      change (http Fixed start id false ents s) with (step Fixed e' s).
+      change (refreshes (g_active g) (EHttp start id end_ ents)) with (refreshes (g_active g) e').
+      destruct (step Fixed e' s) as [r0 s2]. destruct (sstep e' g) as [r g2]. cbn [fst snd] in *. subst r0.
+      assert (Hgen : fst (if lease s2 then (RFail, abandon (release s2)) else (RGone, s2))
+                     = fst (if is_ghttp (g_active g2) then (RFail, mkSpec None [] (g_data g2)) else (RGone, g2))
+                     /\ R (snd (if lease s2 then (RFail, abandon (release s2)) else (RGone, s2)))
+                          (snd (if is_ghttp (g_active g2) then (RFail, mkSpec None [] (g_data g2)) else (RGone, g2)))
+                     /\ (lease s2 = true -> timers (abandon (release s2)) = [])).
+      { destruct H2 as (Hd & Hs & Hr & Hw).
+        destruct (g_active g2) as [[x|m]|] eqn:Ha; cbn in Hr.
+        - destruct Hr as (Hst & Hsi & Hle & (b & Hti) & How). rewrite Hle. cbn [is_ghttp fst snd].
+          assert (Hnil : timers (abandon (release s2)) = [])
+            by (unfold abandon, release, cancelled_timers; cbn; rewrite Hle, Hti; reflexivity).
+          split; [reflexivity|]. split; [|intros _; exact Hnil].
+          unfold R. cbn [g_active g_data g_written sync_rel]. rewrite Hnil. cbn. auto 10.
+        - destruct Hr as (Hst & Hsi & Hle & Hti & How). rewrite Hle. cbn [is_ghttp fst snd].
+          split; [reflexivity|]. split; [|discriminate]. unfold R. rewrite Ha. cbn. auto 10.
+        - destruct Hr as (Hst & Hsi & Hle & Hti & How). rewrite Hle. cbn [is_ghttp fst snd].
+          split; [reflexivity|]. split; [|discriminate]. unfold R. rewrite Ha. cbn. auto 10. }
+      destruct Hgen as (G1 & G2 & G3).
+      assert (Hfl : flagrel (snd (if lease s2 then (RFail, abandon (release s2)) else (RGone, s2)))
+                            (f || refreshes (g_active g) e')).
+      { intros x b Hx. destruct (lease s2) eqn:Hle; cbn [snd] in Hx.
+        - rewrite (G3 eq_refl) in Hx. discriminate.
+        - destruct Ht as [Ht|[[Hre (y & Ht)]|[Hre Ht]]].
+          + rewrite Ht in Hx. discriminate.
+          + rewrite Ht in Hx. injection Hx as _ <-. rewrite Hre, orb_true_r. reflexivity.
+          + rewrite Hre, orb_false_r. apply (Hf x). rewrite <- Ht. assumption. }
+      destruct (lease s2) eqn:Hl2, (is_ghttp (g_active g2)) eqn:Hg2; cbn [fst snd] in G1, G2, Hfl; try discriminate G1;
+        destruct r; cbn [fst snd]; try (split; [reflexivity|]; split; assumption).
+    + (* other events: as a plain request *)
+      cbn [cancelled_end scancelled_end].
+      destruct (sim_step (EJobStart n) s g HR) as [H1 H2]. pose proof (timers_step (EJobStart n) s g HR) as Ht.
+      destruct (step Fixed (EJobStart n) s) as [r0 s1]. destruct (sstep (EJobStart n) g) as [r g1].
+      cbn [fst snd] in *. subst r0. split; [reflexivity|]. split; [assumption|].
+      assert (Hfl : flagrel s1 (f || false)).
+      { intros x b Hx. destruct Ht as [Ht|[[Hre _]|[_ Ht]]]; [rewrite Ht in Hx; discriminate|discriminate|].
+        rewrite orb_false_r. apply (Hf x). rewrite <- Ht. assumption. }
+      rewrite orb_false_r in Hfl. destruct r; cbn [snd refreshes]; rewrite ?orb_false_r; exact Hfl.
+    + cbn [cancelled_end scancelled_end].
+      destruct (sim_step (EJobBatch n ents) s g HR) as [H1 H2]. pose proof (timers_step (EJobBatch n ents) s g HR) as Ht.
+      destruct (step Fixed (EJobBatch n ents) s) as [r0 s1]. destruct (sstep (EJobBatch n ents) g) as [r g1].
+      cbn [fst snd] in *. subst r0. split; [reflexivity|]. split; [assumption|].
+      assert (Hfl : flagrel s1 (f || false)).
+      { intros x b Hx. destruct Ht as [Ht|[[Hre _]|[_ Ht]]]; [rewrite Ht in Hx; discriminate|discriminate|].
+        rewrite orb_false_r. apply (Hf x). rewrite <- Ht. assumption. }
+      rewrite orb_false_r in Hfl. destruct r; cbn [snd refreshes]; rewrite ?orb_false_r; exact Hfl.
+    + (* the job's end call *)
+      cbn [cancelled_end scancelled_end refreshes]. rewrite orb_false_r.
+      destruct HR as (Hd & Hs & Hr & Hw).
+      destruct (g_active g) as [[x|m]|] eqn:Ha; cbn in Hr.
+      * destruct Hr as (Hst & Hsi & Hle & (b & Hti) & How). rewrite Hst, How. cbn.
+        split; [reflexivity|]. split; [|assumption]. cbn [fst]. unfold R. rewrite Ha. cbn. eauto 10.
+      * destruct Hr as (Hst & Hsi & Hle & Hti & How). rewrite Hst, How. cbn.
+        destruct (N.eqb m n); cbn [fst snd].
+        -- split; [reflexivity|]. split.
+           ++ unfold R, abandon. cbn. rewrite Hti. auto 10.
+           ++ intros y c Hy. unfold abandon in Hy. cbn in Hy. rewrite Hti in Hy. discriminate.
+        -- split; [reflexivity|]. split; [|assumption]. cbn [fst]. unfold R. rewrite Ha. cbn. auto 10.
+      * destruct Hr as (Hst & Hsi & Hle & Hti & How). rewrite Hst. cbn.
+        split; [reflexivity|]. split; [|assumption]. cbn [fst]. unfold R. rewrite Ha. cbn. auto 10.
+    + cbn [cancelled_end scancelled_end].
+      destruct (sim_step (ETxn tents) s g HR) as [H1 H2]. pose proof (timers_step (ETxn tents) s g HR) as Ht.
+      destruct (step Fixed (ETxn tents) s) as [r0 s1]. destruct (sstep (ETxn tents) g) as [r g1].
+      cbn [fst snd] in *. subst r0. split; [reflexivity|]. split; [assumption|].
+      assert (Hfl : flagrel s1 (f || false)).
+      { intros x b Hx. destruct Ht as [Ht|[[Hre _]|[_ Ht]]]; [rewrite Ht in Hx; discriminate|discriminate|].
+        rewrite orb_false_r. apply (Hf x). rewrite <- Ht. assumption. }
+      rewrite orb_false_r in Hfl. destruct r; cbn [snd refreshes]; rewrite ?orb_false_r; exact Hfl.
+    + cbn [cancelled_end scancelled_end].
+      destruct (sim_step EExpire s g HR) as [H1 H2]. pose proof (timers_step EExpire s g HR) as Ht.
+      destruct (step Fixed EExpire s) as [r0 s1]. destruct (sstep EExpire g) as [r g1].
+      cbn [fst snd] in *. subst r0. split; [reflexivity|]. split; [assumption|].
+      assert (Hfl : flagrel s1 (f || false)).
+      { intros x b Hx. destruct Ht as [Ht|[[Hre _]|[_ Ht]]]; [rewrite Ht in Hx; discriminate|discriminate|].
+        rewrite orb_false_r. apply (Hf x). rewrite <- Ht. assumption. }
+      rewrite orb_false_r in Hfl. destruct r; cbn [snd refreshes]; rewrite ?orb_false_r; exact Hfl.
 Qed.
 
 Lemma predict_spredict h : forall s gf, R2 s gf -> predict_from Fixed h s = spredict_from h gf.
